@@ -81,6 +81,7 @@ class Case:
         self.typed = True
         self.wellformed = True   # placeholder-free terminals
         self.known_key = None    # the case aims at a recorded known finding
+        self.rows = None         # row of each gene (None: gene i on row i)
 
     def cat(self, kind):
         if kind not in self.catmap:
@@ -102,7 +103,7 @@ class Case:
                 "syms": [{k: (v.hex() if isinstance(v, bytes) else v) for k, v in s.items() if k != "_key"} for s in self.syms],
                 "genes": [[g[0], g[1], list(g[2])] for g in self.genes],
                 "kinds": self.kinds, "vectors": self.vectors, "typed": self.typed, "wellformed": self.wellformed,
-                "known_key": self.known_key}
+                "known_key": self.known_key, "rows": self.rows}
 
     @staticmethod
     def from_json(o):
@@ -119,6 +120,7 @@ class Case:
         c.typed = o.get("typed", True)
         c.wellformed = o.get("wellformed", True)
         c.known_key = o.get("known_key")
+        c.rows = o.get("rows")
         return c
 
     # ---- line protocol
@@ -140,9 +142,7 @@ class Case:
                 out.append("U:%s:%d:%s" % (s["name"].hex(), s["cat"], ",".join(str(c) for c in s["argcats"])))
             elif k == "T":
                 out.append("T:%s:%d:%d" % (s["name"].hex(), s["cat"], 1 if s["param"] else 0))
-        line = "S " + ";".join(out) + " G " + ";".join(
-            "%d:%s:%s" % (g[0], "-" if g[1] is None else "%016x" % g[1], ",".join(str(a) for a in g[2]))
-            for g in self.genes)
+        line = "S " + ";".join(out) + " G " + self.genes_field()
         if self.vectors is not None:
             line += " X " + ";".join(",".join("%016x" % b for b in v) for v in self.vectors)
         return line
@@ -166,9 +166,48 @@ class Case:
                 out.append("N:%s:%d:%s:0:0" % (s["name"].hex(), s["cat"], ac))
             elif k == "T":
                 out.append("N:%s:%d::%d:1" % (s["name"].hex(), s["cat"], 1 if s["param"] else 0))
-        return "S " + ";".join(out) + " G " + ";".join(
-            "%d:%s:%s" % (g[0], "-" if g[1] is None else "%016x" % g[1], ",".join(str(a) for a in g[2]))
-            for g in self.genes)
+        return "S " + ";".join(out) + " G " + self.genes_field()
+
+    def genes_field(self):
+        """arguments are printed as ROWS (a locus is row + category of the argument)"""
+        rows = self.rows or list(range(len(self.genes)))
+        return ";".join(
+            "%d:%s:%s:%d" % (g[0], "-" if g[1] is None else "%016x" % g[1], ",".join(str(rows[a]) for a in g[2]), rows[i])
+            for i, g in enumerate(self.genes))
+
+    def compact_rows(self):
+        """place the genes of different categories on the SAME rows: each gene goes to the
+        lowest row below all of its users that is still free in its own category"""
+        n = len(self.genes)
+        users = [[] for _ in range(n)]
+        for i, g in enumerate(self.genes):
+            for a in g[2]:
+                users[a].append(i)
+        rows = [0] * n
+        taken = set()
+        for i, g in enumerate(self.genes):
+            cat = self.syms[g[0]]["cat"]
+            r = 0 if i == 0 else max(rows[u] for u in users[i]) + 1 if users[i] else 1
+            while (r, cat) in taken:
+                r += 1
+            taken.add((r, cat))
+            rows[i] = r
+        self.rows = rows
+        return self
+
+    def tree_size(self):
+        """number of nodes of the unfolded active tree (shared sub-expressions counted each time)"""
+        memo = {}
+
+        def go(i):
+            if i not in memo:
+                memo[i] = 1 + sum(go(a) for a in self.genes[i][2])
+            return memo[i]
+        return go(0)
+
+    def shares_rows(self):
+        rows = self.rows or []
+        return len(set(rows)) < len(rows)
 
     def idents(self):
         """symbol names along the active tree, preorder (for keys / histograms)"""
@@ -194,7 +233,13 @@ def exact_consts():
 NAMES_R = [b"X1", b"X2", b"X3"]
 NAMES_S = [b"S1", b"S2"]
 NAMES_B = [b"B1"]
-STRINGS = [b"car", b"a b", b"", b"x-1", b"(", b"a,b", b"q?r:s", b"50% off", b"1+2", b"if", b"&&", b"'", b"A_1"]
+STRINGS = [b"car", b"a b", b"", b"x-1", b"(", b"a,b", b"q?r:s", b"50% off", b"1+2", b"if", b"&&", b"'", b"A_1",
+           b"US$50", b"a$$b", b"cost: $9", b"R$&D", b"it's 5 o'clock", b"`x`", b"100%", b"$1", b"a&b", b"007"]
+# regex / format / placeholder look-alikes: the rendered argument must be inserted VERBATIM
+SPECIAL_STRINGS = [b"US$50", b"a$$b", b"cost: $9", b"R$&D", b"$1", b"$2x", b"$&", b"$$", b"$`", b"$'", b"x$", b"$0$11",
+                   b"a&b", b"&&&", b"it's", b"'$1'", b"`$&`", b"100%", b"% %", b"%1%", b"%d %s", b"1", b"42",
+                   b"3.5e-1", b"-7", b".^$|()[]{}*+?", b"[a-z]+", b"(x)"]
+# (a backslash or a double quote inside a string constant is the recorded known finding, see quote_cases)
 
 
 class Gen:
@@ -249,7 +294,7 @@ class Gen:
             return {"k": "K", "ident": "int_number", "cv": [c], "cat": c, "argcats": []}, bits_of(float(r.randint(-128, 127)))
         if kind == "S":
             if r.random() < 0.7 or exec_leg:
-                pool = [s for s in STRINGS if b"%" not in s] if exec_leg else STRINGS
+                pool = STRINGS + SPECIAL_STRINGS
                 return {"k": "Q", "s": r.choice(pool), "cat": c}, None
             return {"k": "V", "name": r.choice(NAMES_S), "cat": c}, None
         k = r.random()
@@ -300,7 +345,15 @@ class Gen:
             for j, ak in enumerate(inst[3]):
                 f = (force or {}).get((row, j))
                 cands = [x for x in range(row + 1, len(case.genes)) if case.kinds[x] == ak]
-                if f is not None:
+                if isinstance(f, dict):
+                    # a given terminal symbol
+                    fs = dict(f)
+                    fs["cat"] = case.cat(ak)
+                    case.genes.append([case.sym_index(fs), None, []])
+                    case.kinds.append(ak)
+                    depth_of[len(case.genes) - 1] = depth_of[row] + 1
+                    args.append(len(case.genes) - 1)
+                elif f is not None:
                     args.append(new_row(ak, depth_of[row] + 1, inst=f if f != "terminal" else None, term=(f == "terminal")))
                 elif cands and r.random() < share:
                     args.append(r.choice(cands))
@@ -362,6 +415,44 @@ class Gen:
                     out.append(c)
         return out
 
+    def string_cases(self):
+        """every special string at every string-taking argument of every template (with the
+        interpreter's value for the real-valued ones)"""
+        out = []
+        for p in self.cat.functions():
+            if p[0].startswith("int_"):
+                continue
+            for j, ak in enumerate(p[3]):
+                if ak != "S":
+                    continue
+                for sv in SPECIAL_STRINGS:
+                    c = Case("string")
+                    self.grow(c, root_inst=p, root_kind=p[2], depth=0, force={(0, j): {"k": "Q", "s": sv}},
+                              exec_leg=(p[2] == "R" and p[0] == "real_length"))
+                    if p[2] == "R" and p[0] == "real_length":
+                        c.vectors = [[]]
+                    if self.rng.random() < 0.5:
+                        c.compact_rows()
+                    out.append(c)
+        return out
+
+    def rowshare_cases(self, n, depth=4):
+        """multi-category genomes whose active tree reaches the SAME ROW in two categories, with
+        heavy sharing of sub-expressions"""
+        out = []
+        r = self.rng
+        mixed = [x for x in self.cat.functions() if len(set(x[1])) > 1 or x[0] in ("real_length", "string_ife")]
+        tries = 0
+        while len(out) < n and tries < 20 * n:
+            tries += 1
+            c = Case("rowshare")
+            root = r.choice(mixed)
+            self.grow(c, root_inst=root, root_kind=root[2], depth=r.randint(1, depth), share=r.choice([0.15, 0.4, 0.7]))
+            c.compact_rows()
+            if c.shares_rows() and c.tree_size() <= 250:
+                out.append(c)
+        return out
+
     def random_cases(self, n, depth=4):
         out = []
         for _ in range(n):
@@ -381,6 +472,8 @@ class Gen:
                       depth=r.randint(1, depth), exec_leg=True)
             nv = len([s for s in c.syms if s["k"] == "V"])
             c.vectors = [[bits_of(r.choice(pool)) for _ in range(nv)] for _ in range(4)]
+            if k % 2:
+                c.compact_rows()
             out.append(c)
         return out
 
@@ -458,6 +551,16 @@ class Gen:
                     genes[0][2].append(len(genes) - 1)
                 c.genes = [tuple(g) for g in genes]
                 c.kinds = ["R"] * len(genes)
+                out.append(c)
+        for sv in [b"%%1%%", b"%%2%%", b"a%%3%%b", b"%%1%%%%2%%", b"%%", b"x%%", b"%%4%%"]:
+            for p in self.cat.functions():
+                if "S" not in p[3] or p[0].startswith("int_"):
+                    continue
+                j = p[3].index("S")
+                c = Case("malformed")
+                c.wellformed = False
+                c.typed = False
+                self.grow(c, root_inst=p, root_kind=p[2], depth=0, force={(0, j): {"k": "Q", "s": sv}})
                 out.append(c)
         return out
 
